@@ -61,9 +61,11 @@ def quantifier(facts, t, mapping):
     return (call[2][0], cb, m, pol)
 
 
-def pair_truth(facts, cb, m, own_side, vf, acc=None):
+QUANT_SINKS = ('count', 'next', 'any', 'all', 'find', 'position', 'last', 'nth')
+
+
+def pair_truth(facts, cb, m, own_side, vf, acc=None, q=None):
     """Truth of the inner predicate for each ordering of (own clock, other clock)."""
-    cit = interp(facts, cb)
     seen = []
 
     def classify(a, b, t):
@@ -75,7 +77,10 @@ def pair_truth(facts, cb, m, own_side, vf, acc=None):
         return ('pair', 'fwd' if ia == own_side else 'rev')
     truth = {}
     for o in PARTIAL:
-        truth[o] = closure_value(facts, cb, classify=classify, assumption={'pair': o}, acc=acc)
+        if q is not None:
+            truth[o] = quant_value(facts, q, classify=classify, assumption={'pair': o})
+        else:
+            truth[o] = closure_value(facts, cb, classify=classify, assumption={'pair': o}, acc=acc)
     return truth, bool(seen)
 
 
@@ -108,7 +113,7 @@ def mrg_mvreg(ctx):
                 problems.append('the quantifier does not range over all values of the other side')
                 return None
             ctx.analysed.add(q['cb'].key)
-            truth, hit = pair_truth(facts, q['cb'], q['m'], 1, vf, q.get('acc'))
+            truth, hit = pair_truth(facts, q['cb'], q['m'], 1, vf, q.get('acc'), q=q)
             if not hit or any(v is None for v in truth.values()):
                 problems.append('inner predicate is not a comparison of an own clock with an other clock')
                 return None
@@ -132,6 +137,9 @@ def mrg_mvreg(ctx):
     for bb, c in sorted(it.calls.items()):
         if call_name(c.term) not in ('filter', 'retain', 'retain_mut'):
             continue
+        if call_name(c.term) == 'filter' and any(call_name(c2.term) in QUANT_SINKS and c2.args and c.term in set(subterms(c2.args[0].val))
+                                                 for c2 in it.calls.values()):
+            continue    # `xs.filter(p).count() == 0`: the filter is the body of a quantifier, not a dominance filter of its own
         for clo, mapping in closure_bindings(c.term):
             item = mapping.get(('param', 2))
             if item is None:
@@ -301,6 +309,40 @@ def mv_evict(ctx):
             if res[EQ][0]:
                 errs.append('a value with the same clock as the Put (Eq) is kept: a re-delivered write is duplicated')
             ctx.check(not errs, 'retain', cb, 'kept exactly under {Gt, None}', errs[0] if errs else '', line=cb.line, details=det)
+    # loop form: a complete loop over self.vals that keeps (pushes into the collection that becomes self.vals) or drops each item
+    from .loops import loops_of, item_filter, keep_table
+    for lp in ([] if done else loops_of(it)):
+        if not lp.whole_over(1, (vf,)) or lp.early_exits():
+            continue
+        flt = item_filter(facts, it, lp, (vf,))
+        if not flt:
+            continue
+        hit = []
+
+        def classify(a, b, t):
+            for x, y, orient in ((a, b, 'fwd'), (b, a, 'rev')):
+                py = param_path(y)
+                if _item_clock_side(x, vf) == 1 and py and py[0] == 2 and py[1][-1:] == ('Put.clock',):
+                    hit.append(1)
+                    return ('ev', orient)
+            return None
+        tab, _h = keep_table(facts, body, lp, flt[0], flt[1], lambda o: Evaluator(facts, classify=classify, assumption={'ev': o}), PARTIAL)
+        res = {o: (tab[o][0], not tab[o][1]) for o in PARTIAL}     # (keep may, drop may)
+        det = {'ord(existing clock, put clock) -> (keep may, drop may)': res}
+        done = True
+        line = block_line(it, lp.head)
+        if not hit:
+            ctx.fail('retain', body, 'existing values are not filtered by comparing their clock with the Put clock', line=line, details=det)
+            continue
+        errs = []
+        for o in (GT, NONE):
+            if res[o][1]:
+                errs.append('a value that is newer than or concurrent with the Put (%s) is evicted' % o)
+        if res[LT][0]:
+            errs.append('a value the Put has observed (Lt) is kept: a superseded write stays visible')
+        if res[EQ][0]:
+            errs.append('a value with the same clock as the Put (Eq) is kept: a re-delivered write is duplicated')
+        ctx.check(not errs, 'retain', body, 'kept exactly under {Gt, None} (loop form)', errs[0] if errs else '', line=line, details=det)
     if not done:
         ctx.fail('retain', body, 'MVReg::apply never filters self.vals against the Put clock')
 
@@ -331,6 +373,11 @@ def mv_live(ctx):
         lt_ = loc_target(it, w.loc)
         if lt_ is not None and lt_[0] == 1 and tuple(lt_[1]) == (vf,) and lt_[2] == 'w':
             evicts.append(bb)
+
+    from .loops import loops_of, item_filter
+    for lp in loops_of(it):     # the eviction written as a loop over self.vals
+        if lp.whole_over(1, (vf,)) and not lp.early_exits() and item_filter(facts, it, lp, (vf,)):
+            evicts.append(lp.head)
 
     def atom(t):
         if is_call(t, 'is_empty') and len(t[2]) == 1:
@@ -400,7 +447,7 @@ def mv_ignore(ctx):
     qprob = []
 
     def qatom(t):
-        if t[0] not in ('call', 'unop', 'binop'):
+        if t[0] not in ('call', 'unop', 'binop', 'loopq'):
             return None
         q = quant(facts, t)
         if q is None:
@@ -418,7 +465,7 @@ def mv_ignore(ctx):
                     seen_.append(1)
                     return ('dom', orient)
             return None
-        tb = {o: closure_value(facts, q['cb'], classify=cq, assumption={'dom': o}, acc=q.get('acc')) for o in PARTIAL}
+        tb = {o: quant_value(facts, q, classify=cq, assumption={'dom': o}) for o in PARTIAL}
         if not seen_ or any(v is None for v in tb.values()):
             return None
         key = versionless(t)
@@ -695,8 +742,17 @@ def mv_read(ctx):
             ctx.fail(name, body, 'does not return a ReadCtx')
             continue
         f = dict(r[3])
-        a_ok = _join_of_vals(facts, f['add_clock'], vf, body)
-        r_ok = _join_of_vals(facts, f['rm_clock'], vf, body)
+        raw0 = it.ret
+        while raw0[0] in ('lv', 'at'):
+            raw0 = raw0[3] if raw0[0] == 'lv' else raw0[2]
+        fr = dict(raw0[3]) if raw0[0] == 'agg' else f     # un-peeled fields keep the identity of an accumulator local
+
+        def unclone(x):
+            while x[0] == 'at' or (x[0] == 'call' and call_name(x) in ('clone', 'to_owned') and len(x[2]) == 1):
+                x = x[2] if x[0] == 'at' else x[2][0]
+            return x
+        a_ok = _join_of_vals(facts, f['add_clock'], vf, body) or _join_of_vals(facts, unclone(fr['add_clock']), vf, body)
+        r_ok = _join_of_vals(facts, f['rm_clock'], vf, body) or _join_of_vals(facts, unclone(fr['rm_clock']), vf, body)
         v_ok = True
         if name == 'read':
             v = f['val']
@@ -712,6 +768,19 @@ def mv_read(ctx):
                                 cr = interp(facts, cb).ret
                                 if versionless(cr) == ('field', ('param', 2), '1'):
                                     v_ok = True
+            if not v_ok:
+                # the same list filled by a loop: one push of the item's value per iteration of a complete loop over self.vals
+                from .loops import loop_collected
+                raw = it.ret
+                while raw[0] in ('lv', 'at'):
+                    raw = raw[3] if raw[0] == 'lv' else raw[2]
+                lc = loop_collected(facts, body, it, dict(raw[3]).get('val', v)) if raw[0] == 'agg' else None
+                if lc is not None and len(lc[1]) == 1 and lc[0].whole_over(1, (vf,)) and not lc[0].source()[2]:
+                    x = drop_lv(lc[1][0])
+                    while is_call(x, ('clone', 'cloned', 'copied', 'to_owned')) and len(x[2]) == 1:
+                        x = drop_lv(x[2][0])
+                    src_ = as_item(x[1]) if x[0] == 'field' and x[2] == '1' else None
+                    v_ok = src_ is not None and versionless(src_) == versionless(lc[0].src)
         errs = []
         if not a_ok:
             errs.append('add_clock is not the join of all value clocks')
